@@ -17,7 +17,7 @@ import (
 
 func init() {
 	register(&Def{ID: "C18", Engine: "E3", Run: runC18,
-		Rule: "programs = every unordered pair (thorough: also triples) of goroutines, each running one operation (plus two-operation bodies, and two option-carrying operations on private tensors against a third) from the read-only alphabet over a set of SHARED tensors (contiguous matrix, lazily transposed matrix, sliced view, vector, masked vector) or from the private alphabet; every program is explored by the cooperative scheduler with a stateless DFS under iterative preemption bounding - all executions with 0 preemptions, then <= 1, then <= 2; the bound completed below the execution cap is recorded per program - (scheduling points = every Mutex Lock/Unlock, every Pool Get/Put, the entry of every function of perf.go and every channel operation of its channel-based pools); " +
+		Rule: "programs = every unordered pair (thorough: also triples) of goroutines, each running one operation (plus two-operation bodies, and two option-carrying operations on private tensors - among them one that first makes calls that are REFUSED after their options were parsed - against a third) from the read-only alphabet over a set of SHARED tensors (contiguous matrix, lazily transposed matrix, sliced view, vector, masked vector) or from the private alphabet; every program is explored by the cooperative scheduler with a stateless DFS under iterative preemption bounding - all executions with 0 preemptions, then <= 1, then <= 2; the bound completed below the execution cap is recorded per program - (scheduling points = every Mutex Lock/Unlock, every Pool Get/Put, the entry of every function of perf.go and every channel operation of its channel-based pools); " +
 			"oracle per complete interleaving: each goroutine's result digest equals its result when run alone; monitor at EVERY scheduling point: the fingerprint (metadata + storage) of every shared tensor equals its initial fingerprint; deadlock = no enabled goroutine. states = distinct (program, pool/global state hash) at scheduling points; transitions = scheduling steps. " +
 			"auxiliary (sampling, not the deciding step): the same bodies free-running under the race detector against the real package sync",
 		Assume: []string{"sequential consistency between scheduling points; unsynchronised accesses between points are visible only through the monitor and the auxiliary -race pass", "the sync.Pool shim is a legal refinement of sync.Pool (LIFO free list)"}})
